@@ -242,6 +242,16 @@ func (d *Driver) Apply(o Op, m *Model) Res {
 		key = storage.MustNewObjectKey(o.K)
 	}
 	switch o.Kind {
+	case "Get":
+		// a read (Head + full Get) as an operation of the history: it matters for caching layers
+		obj, _, kind, _ := d.readObjectRaw(bn, key, nil)
+		if kind != "ok" {
+			if kind == "DeleteMarker" {
+				kind = "NoSuchKey"
+			}
+			return Res{Err: kind}
+		}
+		return Res{ETag: obj.ETag, Size: obj.Size}
 	case "CreateBucket":
 		return Res{Err: ErrKind(s.CreateBucket(ctx, bn))}
 	case "DeleteBucket":
@@ -484,6 +494,11 @@ func (d *Driver) objectOf(o *storage.Object, body []byte, bodyErr error, tags ma
 
 // readObject does Head + Get (+tags) of one object (optionally by version id).
 func (d *Driver) readObject(bn storage.BucketName, key storage.ObjectKey, vid *string) (OObject, string, []Diff) {
+	o, _, k, dd := d.readObjectRaw(bn, key, vid)
+	return o, k, dd
+}
+
+func (d *Driver) readObjectRaw(bn storage.BucketName, key storage.ObjectKey, vid *string) (OObject, []byte, string, []Diff) {
 	ctx := d.Ctx
 	var diffs []Diff
 	var hopts *storage.HeadObjectOptions
@@ -499,9 +514,9 @@ func (d *Driver) readObject(bn storage.BucketName, key storage.ObjectKey, vid *s
 		k := ErrKind(err)
 		var cdm *storage.CurrentDeleteMarkerError
 		if errors.As(err, &cdm) {
-			return OObject{VID: d.lookupVID(cdm.VersionID)}, k, nil
+			return OObject{VID: d.lookupVID(cdm.VersionID)}, nil, k, nil
 		}
-		return OObject{}, k, nil
+		return OObject{}, nil, k, nil
 	}
 	g, readers, gerr := d.S.GetObject(ctx, bn, key, nil, gopts)
 	var body []byte
@@ -552,7 +567,7 @@ func (d *Driver) readObject(bn storage.BucketName, key storage.ObjectKey, vid *s
 			diffs = append(diffs, Diff{Class: "content", Where: where + ".size-vs-body", Model: fmt.Sprint(len(body)), Impl: fmt.Sprint(obj.Size)})
 		}
 	}
-	return obj, "ok", diffs
+	return obj, body, "ok", diffs
 }
 
 // Observe reads the complete API-visible state. It returns the observation and the diffs of the
@@ -730,4 +745,12 @@ func (d *Driver) manifest(o Op, m *Model) []storage.CompleteMultipartUploadPart 
 		}
 	}
 	return parts
+}
+
+// CloneFor returns a driver for another storage that shares this driver's id tables (for
+// differential observation of an inner storage).
+func (d *Driver) CloneFor(s storage.Storage) *Driver {
+	c := *d
+	c.S = s
+	return &c
 }
